@@ -379,7 +379,7 @@ def ro_tangent(case, ctx):
 # ----------------------------------------------------------------------------- RO: Masing, hysteresis branch
 def _masing_extra(draw, case):
     K, n = case["K"], case["n"]
-    case["max_stress"] = abs(draw(_stress_value(K, n)))
+    case["max_stress"] = draw(_stress_value(K, n)) * draw(st.sampled_from([1.0, -1.0]))      # reversal in tension or in compression
     if case["kind"] in INT_KINDS:
         case["max_stress"] = int(case["max_stress"])
     case["frac"] = draw(st.lists(st.one_of(st.floats(-1.0, 1.0), st.sampled_from([1.0, -1.0, 0.0])), min_size=1, max_size=4))
@@ -388,7 +388,7 @@ def _masing_extra(draw, case):
 
 @subcheck("C16", "ro_masing", strategy=lambda tier: _ro_cases(tier, stress=True, strain=True, extra=_masing_extra), quick=3000, thorough=100000,
           doc="delta_strain(d) == 2 strain(d/2), delta_stress(d) == 2 stress(d/2), mutual inverses; lower_hysteresis(max,max) == strain(max), "
-              "== strain(max) - delta_strain(max - s) in general, closes at -max; ValueError above max")
+              "== strain(max) - delta_strain(max - s) for reversal points of either sign, increasing in s, closes at -max; ValueError above max")
 def ro_masing(case, ctx):
     ro, E, K, n = _ro(case, ctx)
     kw, rtol, tol = {}, 1e-5, 1e-6
@@ -419,25 +419,38 @@ def ro_masing(case, ctx):
                     break
                 raise Violation("delta_stress(%r) = %r, doubled curve gives %r; delta_strain(delta_stress) = %r (E=%r K=%r n=%r, %s)" % (
                     d, dsig[i], 2 * half, rt[i], E, K, n, kind), bucket="masing:strain_of_stress")
-    # ---- lower hysteresis branch
+    # ---- lower hysteresis branch, hung below a reversal point of either sign (tension or compression)
     smax = case["max_stress"]
+    amp = abs(smax)
     top = float(ro.strain(smax))
     whole = kind in INT_KINDS
-    pts = [int(smax * f) if whole else smax * f for f in case["frac"]] + [smax, -smax]
+    ctx.label("reversal:" + ("tension" if smax > 0 else ("compression" if smax < 0 else "zero")))
+    # points s = max - d with spans d in [0, 2 |max|]; the last two are the reversal point itself and the point 2 |max| below it
+    pts = [smax - (int(amp * (1.0 - f)) if whole else amp * (1.0 - f)) for f in case["frac"]] + [smax, smax - 2 * amp]
     low = _apply(lambda x: ro.lower_hysteresis(x, smax), pts, kind)
     for i, x in enumerate(pts):
-        want = ref_strain(E, K, n, smax) - 2.0 * ref_strain(E, K, n, (smax - x) / 2.0)
-        mag = abs(ref_strain(E, K, n, smax)) + 2.0 * abs(ref_strain(E, K, n, (smax - x) / 2.0))
+        half = (smax - x) / 2.0
+        want = ref_strain(E, K, n, smax) - 2.0 * ref_strain(E, K, n, half)
+        mag = abs(ref_strain(E, K, n, smax)) + 2.0 * abs(ref_strain(E, K, n, half))
         if not _close(low[i], want, RT_CLOSED * mag):
-            raise Violation("lower_hysteresis(%r, %r) = %r, strain(max) - 2 strain((max - s)/2) = %r" % (x, smax, low[i], want), bucket="masing:lower_branch")
+            raise Violation("lower_hysteresis(%r, %r) = %r, strain(max) - 2 strain((max - s)/2) = %r (E=%r K=%r n=%r)" % (x, smax, low[i], want, E, K, n),
+                            bucket="masing:lower_branch")
+        own = float(ro.strain(smax)) - float(ro.delta_strain(float(smax - x)))
+        if not _close(low[i], own, 8 * EPS * mag):
+            raise Violation("lower_hysteresis(%r, %r) = %r != strain(max) - delta_strain(max - s) = %r" % (x, smax, low[i], own), bucket="masing:lower_branch_own")
     if not _close(low[-2], top, 4 * EPS * abs(top)):
         raise Violation("lower_hysteresis(max, max) = %r does not meet the curve: strain(max) = %r (max = %r)" % (low[-2], top, smax), bucket="masing:reversal_point")
-    if not _close(low[-1], -top, RT_CLOSED * 3 * abs(top)):
+    if smax > 0 and not _close(low[-1], -top, RT_CLOSED * 3 * abs(top)):
         raise Violation("lower_hysteresis(-max, max) = %r, the loop should close at -strain(max) = %r" % (low[-1], -top), bucket="masing:closure")
-    if case["above"] is not None and smax > 0:
-        bad = int(smax * (1.0 + case["above"])) + 1 if whole else smax * (1.0 + case["above"])
+    order = sorted(range(len(pts)), key=lambda i: pts[i])
+    for i, k in zip(order[:-1], order[1:]):
+        if pts[k] - pts[i] > 1e-9 * max(abs(pts[i]), abs(pts[k])) and not low[k] > low[i]:
+            raise Violation("lower branch not increasing with the stress: (%r -> %r), (%r -> %r), max = %r" % (pts[i], low[i], pts[k], low[k], smax),
+                            bucket="masing:branch_monotone")
+    if case["above"] is not None and smax != 0:
+        bad = smax + int(amp * case["above"]) + 1 if whole else smax + amp * case["above"]
         try:
-            _apply(lambda x: ro.lower_hysteresis(x, smax), [0, bad] if whole else [0.0, bad], kind)
+            _apply(lambda x: ro.lower_hysteresis(x, smax), [smax - amp, bad], kind)
         except ValueError:
             ctx.tolerate("ValueError for stress > max_stress (documented)")
         else:
